@@ -73,7 +73,7 @@ func postprocessItem(item *models.Item) []*models.Item {
 
 	// Return if:
 	// 1. the item is a child has a depth (without redirections) bigger than 2 -> we don't want to go too deep but still get the assets of assets (f.ex: m3u8)
-	// 2. assets capture and domains crawl are disabled
+	// 2. assets capture and domains crawl are disabled and the hop limit forbids outlinks
 	if !domainscrawl.Enabled() && item.GetDepthWithoutRedirections() > 2 {
 		logger.Debug("item is a child and it's depth (without redirections) is more than 2", "item_id", item.GetShortID())
 		item.SetStatus(models.ItemCompleted)
@@ -82,8 +82,8 @@ func postprocessItem(item *models.Item) []*models.Item {
 		logger.Debug("HTML got extracted as asset, skipping", "item_id", item.GetShortID())
 		item.SetStatus(models.ItemCompleted)
 		return outlinks
-	} else if config.Get().DisableAssetsCapture && !domainscrawl.Enabled() {
-		logger.Debug("assets capture and domains crawl are disabled", "item_id", item.GetShortID())
+	} else if config.Get().DisableAssetsCapture && !domainscrawl.Enabled() && item.GetURL().GetHops() >= config.Get().MaxHops {
+		logger.Debug("assets capture and domains crawl are disabled, hop limit reached", "item_id", item.GetShortID())
 		item.SetStatus(models.ItemCompleted)
 		return outlinks
 	}
